@@ -211,6 +211,18 @@ pub struct F26 {
     pub b: Vec<String>,
 }
 
+/// numeric extremes in attribute, list-item, element and text position
+#[derive(Debug, Clone, PartialEq, Serialize, Deserialize)]
+pub struct F27 {
+    #[serde(rename = "@id")]
+    pub id: u64,
+    #[serde(rename = "@hashes", default)]
+    pub hashes: Vec<u64>,
+    pub size: u64,
+    #[serde(rename = "$text")]
+    pub t: i64,
+}
+
 // ---- outside the round-trippable domain (C13 / C07 only)
 #[derive(Debug, Clone, PartialEq, Serialize, Deserialize)]
 pub struct H01 {
@@ -244,7 +256,7 @@ pub struct H06 {
     pub a: Hostile,
 }
 
-pub const TYPES: &[&str] = &["F01", "F02", "F03", "F04", "F05", "F07", "F08", "F11", "F15", "F16", "F17", "F18", "F19", "F20", "F22", "F23", "F24", "F25", "F26", "H01", "H02", "H05", "H06"];
+pub const TYPES: &[&str] = &["F01", "F02", "F03", "F04", "F05", "F07", "F08", "F11", "F15", "F16", "F17", "F18", "F19", "F20", "F22", "F23", "F24", "F25", "F26", "F27", "H01", "H02", "H05", "H06"];
 
 /// Apply `$body` with `T` bound to the family type named `$name`.
 #[macro_export]
@@ -270,6 +282,7 @@ macro_rules! with_type {
             "F24" => { type $T = $crate::family::F24; $body }
             "F25" => { type $T = $crate::family::F25; $body }
             "F26" => { type $T = $crate::family::F26; $body }
+            "F27" => { type $T = $crate::family::F27; $body }
             "H01" => { type $T = $crate::family::H01; $body }
             "H02" => { type $T = $crate::family::H02; $body }
             "H05" => { type $T = $crate::family::H05; $body }
